@@ -48,7 +48,7 @@ def main(tier, seed):
     for size in sizes:
         for auto in (True, False):
             for order in ("in", "out"):
-                for pre in (None, "get", "contains", "len", "ooo", "remove", "update"):
+                for pre in (None, "get", "contains", "len", "ooo", "remove", "update", "reopen", "reopen_get"):
                     for npts in (1, 3):
                         if tier == "quick" and size >= 100 and (pre == "len" or (npts == 3 and order == "out")):
                             continue
@@ -70,6 +70,10 @@ def main(tier, seed):
                             hist.append(("insert", [g.point(dbgen.T0 - 50 * dbgen.SEC)], None))      # leaves the index invalid
                         elif pre == "remove":
                             hist.append(("remove", one, None))                                         # rewrite: the handle is reopened at offset 0
+                        elif pre == "reopen":
+                            hist.append(("reopen", auto))                   # a populated file opened afresh: the first insert of the session
+                        elif pre == "reopen_get":
+                            hist += [("reopen", auto), ("get", one, None)]
                         elif pre == "update":
                             hist.append(("update", one, {"tags": ("static", {"u": "x"})}, None))
                         t_last = max([p["time"] for p in pts], default=dbgen.T0)
